@@ -251,24 +251,6 @@ Definition sfield_wf (s : sfield) : bool :=
 Definition sp_inline_scope (is_oneof : bool) (fs : list sfield) : list bytes :=
   map (fun s => to_snake (sf_name s)) fs
   ++ (if is_oneof then [] else map (fun s => 95 :: to_snake (sf_name s)) (filter sf_optional fs)).
-Definition inline_wf (u : ufield) : bool :=
-  match uf_kind u with
-  | KInlineObject fs => forallb sfield_wf fs && nodup_bytes (sp_inline_scope false fs)
-  | KInlineOneof fs => forallb sfield_wf fs && nodup_bytes (sp_inline_scope true fs)
-  | KInlineEnum os => forallb name_ok os
-  | _ => true
-  end.
-Definition ufield_wf (u : ufield) : bool :=
-  name_ok (uf_name u) && inline_wf u
-  && negb (uf_optional u && (uf_required u || match uf_kind u with KKey p _ _ => p | _ => false end)).
-(* the proto symbols the user's fields of ONE message stand for: the field ToSnake(name), the
-   presence oneof "_<field>" of an optional singular field, the entry message <Camel>Entry of a map field,
-   the inline type <Camel> of an inline field and the values of an inline enum *)
-Definition is_map_kind (u : ufield) : bool := match uf_kind u with KMap _ => true | _ => false end.
-(* only a singular field has a presence oneof: an optional array / map is a plain repeated field (fix d536c9b) *)
-Definition is_repeated_kind (u : ufield) : bool :=
-  match uf_kind u with KArray _ => true | KMap _ => true | _ => false end.
-Definition sp_presence (u : ufield) : bool := uf_optional u && negb (is_repeated_kind u).
 Definition sp_enum_value_name (prefix s : bytes) : bytes := if has_prefix prefix s then s else prefix ++ s.
 Definition sp_inline_enum_values (name : bytes) (opts : list bytes) : list bytes :=
   let prefix := to_screaming_snake name ++ [95] in
@@ -277,11 +259,77 @@ Definition sp_inline_enum_values (name : bytes) (opts : list bytes) : list bytes
               else (prefix ++ bs "UNSPECIFIED") :: map (sp_enum_value_name prefix) opts
   | [] => [prefix ++ bs "UNSPECIFIED"]
   end.
+(* ---- inline schemas whose fields are again inline schemas / arrays / maps (the tree form) ----------------
+   per nested message the same conditions as for a message of user fields: identifier names, no field both
+   optional and required, the proto symbols of its fields distinct (ToSnake(name), the presence oneof of an
+   optional singular field, the entry message of a map, the nested types its fields define and the values
+   of nested enums); the members of a oneof are singular *)
+Definition tf_kind (t : tfield) : tkind := match t with TF _ k _ _ _ => k end.
+Definition tf_required (t : tfield) : bool := match t with TF _ _ r _ _ => r end.
+Definition tf_optional (t : tfield) : bool := match t with TF _ _ _ o _ => o end.
+Definition tk_repeated (k : tkind) : bool :=
+  match k with TK _ => false | TKArray _ => true | TKMap _ => true | TKInline _ c _ _ => negb (c =? 0) end.
+Definition tk_map (k : tkind) : bool :=
+  match k with TKMap _ => true | TKInline _ c _ _ => c =? 2 | _ => false end.
+Definition sp_tnames (fs : list tfield) : list bytes :=
+  flat_map (fun t => match t with
+    | TF n (TKInline k _ _ os) _ _ _ =>
+        to_camel n :: (if k =? 2 then sp_inline_enum_values (to_camel n) os else [])
+    | _ => [] end) fs.
+(* without the member "type" of the proto oneof of a oneof wrapper: see [reserved_free] *)
+Definition sp_tscope (k : N) (fs : list tfield) : list bytes :=
+  map (fun t => to_snake (tf_name t)) fs
+  ++ (if k =? 1 then []
+      else map (fun t => 95 :: to_snake (tf_name t)) (filter (fun t => tf_optional t && negb (tk_repeated (tf_kind t))) fs))
+  ++ map (fun t => map_name (to_snake (tf_name t))) (filter (fun t => tk_map (tf_kind t)) fs)
+  ++ sp_tnames fs.
+Definition tmembers_singular (k : N) (fs : list tfield) : bool :=
+  if k =? 1 then forallb (fun t => negb (tk_repeated (tf_kind t))) fs else true.
+Fixpoint tfield_wf (t : tfield) : bool :=
+  match t with
+  | TF n k r o _ =>
+      name_ok n && negb (o && r)
+      && match k with
+         | TKInline k' _ fs os =>
+             if k' =? 2 then is_nil fs && forallb name_ok os
+             else (k' <? 2) && forallb tfield_wf fs && nodup_bytes (sp_tscope k' fs) && tmembers_singular k' fs
+         | _ => true
+         end
+  end.
+Definition tree_wf (k : N) (fs : list tfield) : bool :=
+  (k <? 2) && forallb tfield_wf fs && nodup_bytes (sp_tscope k fs) && tmembers_singular k fs.
+
+Definition inline_wf (u : ufield) : bool :=
+  match uf_kind u with
+  | KInlineObject fs => forallb sfield_wf fs && nodup_bytes (sp_inline_scope false fs)
+  | KInlineOneof fs => forallb sfield_wf fs && nodup_bytes (sp_inline_scope true fs)
+  | KInlineEnum os => forallb name_ok os
+  | KInlineTree k fs => tree_wf k fs
+  | _ => true
+  end.
+Definition ufield_wf (u : ufield) : bool :=
+  name_ok (uf_name u) && inline_wf u
+  && negb (uf_optional u && (uf_required u || match uf_kind u with KKey p _ _ => p | _ => false end)).
+(* the proto symbols the user's fields of ONE message stand for: the field ToSnake(name), the
+   presence oneof "_<field>" of an optional singular field, the entry message <Camel>Entry of a map field,
+   the inline type <Camel> of an inline field and the values of an inline enum *)
+(* `map:<type>`, or `map:object { .. }` / `map:oneof { .. }` / `map:enum { .. }` of an inline schema *)
+Definition is_inline_kind (u : ufield) : bool :=
+  match uf_kind u with
+  | KInlineObject _ => true | KInlineOneof _ => true | KInlineEnum _ => true | KInlineTree _ _ => true
+  | _ => false end.
+Definition is_map_kind (u : ufield) : bool :=
+  match uf_kind u with KMap _ => true | _ => is_inline_kind u && (uf_container u =? 2) end.
+(* only a singular field has a presence oneof: an optional array / map is a plain repeated field (fix d536c9b) *)
+Definition is_repeated_kind (u : ufield) : bool :=
+  match uf_kind u with KArray _ => true | KMap _ => true | _ => is_inline_kind u && negb (uf_container u =? 0) end.
+Definition sp_presence (u : ufield) : bool := uf_optional u && negb (is_repeated_kind u).
 Definition sp_inline_names (fs : list ufield) : list bytes :=
   flat_map (fun u => match uf_kind u with
     | KInlineObject _ => [to_camel (uf_name u)]
     | KInlineOneof _ => [to_camel (uf_name u)]
     | KInlineEnum os => to_camel (uf_name u) :: sp_inline_enum_values (to_camel (uf_name u)) os
+    | KInlineTree k _ => to_camel (uf_name u) :: (if k =? 2 then sp_inline_enum_values (to_camel (uf_name u)) [] else [])
     | _ => [] end) fs.
 Definition sp_field_scope (fs : list ufield) : list bytes :=
   map (fun u => to_snake (uf_name u)) fs
@@ -310,6 +358,16 @@ Definition item_ref_ok (e : entity) (i : ikind) : bool :=
   | IEnum n => names_enum e n
   | _ => true
   end.
+Fixpoint tfield_ref_ok (e : entity) (t : tfield) : bool :=
+  match t with
+  | TF _ k _ _ _ =>
+      match k with
+      | TK i => item_ref_ok e i
+      | TKArray i => item_ref_ok e i
+      | TKMap i => item_ref_ok e i
+      | TKInline _ _ fs _ => forallb (tfield_ref_ok e) fs
+      end
+  end.
 Definition ref_ok (e : entity) (u : ufield) : bool :=
   match uf_kind u with
   | KObject n => names_object e n
@@ -319,6 +377,7 @@ Definition ref_ok (e : entity) (u : ufield) : bool :=
   | KMap i => item_ref_ok e i
   | KInlineObject fs => forallb (fun s => item_ref_ok e (sf_kind s)) fs
   | KInlineOneof fs => forallb (fun s => item_ref_ok e (sf_kind s)) fs
+  | KInlineTree _ fs => forallb (tfield_ref_ok e) fs
   | _ => true
   end.
 
@@ -426,6 +485,16 @@ Definition in_quantifier (e : entity) : bool :=
    uses one of them in that place is inside the quantifier, but the compiler rejects it (link error
    `symbol ... already defined`), which contradicts "each entity declaration yields ..." *)
 Definition response_name (e : entity) : bytes := to_snake (to_lower_camel (to_snake (e_name e))).
+(* no option of a oneof nested anywhere in a tree-form inline schema is named type *)
+Definition options_type_free (k : N) (fs : list tfield) : bool :=
+  if k =? 1 then forallb (fun t => negb (bytes_eqb (to_snake (tf_name t)) (bs "type"))) fs else true.
+Fixpoint tfield_type_free (t : tfield) : bool :=
+  match t with
+  | TF _ (TKInline k _ fs _) _ _ _ => options_type_free k fs && forallb tfield_type_free fs
+  | _ => true
+  end.
+Definition tree_type_free (k : N) (fs : list tfield) : bool :=
+  options_type_free k fs && forallb tfield_type_free fs.
 Definition reserved_free (e : entity) : bool :=
   (* keys in the Get/List/Events requests next to page and query *)
   forallb (fun k => negb (key_in_path k && existsb (bytes_eqb (to_snake (key_name k))) [bs "page"; bs "query"]))
@@ -440,6 +509,7 @@ Definition reserved_free (e : entity) : bool :=
                        | _ => true end) (e_schemas e)
   && forallb (fun u => match uf_kind u with
                         | KInlineOneof opts => forallb (fun o => negb (bytes_eqb (to_snake (sf_name o)) (bs "type"))) opts
+                        | KInlineTree k fs => tree_type_free k fs
                         | _ => true end) (all_ufields e)
   (* the entity's own property in the Get / List responses next to events / page *)
   && negb (bytes_eqb (response_name e) (bs "page"))
